@@ -128,6 +128,26 @@ def run_tlc(work, module, cfg=None, constants=None, dump=True, workers=16, timeo
     return res
 
 
+def simulate_cases(work, module, constants, num, depth, seed, invariant="Emit", tag="CASE", timeout=3600, init="Init", next_="Next"):
+    """Random behaviours beyond the exhaustive bound: TLC -simulate (num behaviours per worker, 16 workers) with an
+    invariant that PrintT's <<tag, ...>> for the states of interest.  TLC evaluates the invariant on every successor it
+    generates, so each behaviour contributes all one-step extensions of its prefixes.  Returns (result, distinct values)."""
+    res = run_tlc(work, module, constants=constants, invariants=[invariant], simulate="num=%d" % num, depth=depth,
+                  seed=seed, dump=False, timeout=timeout, init=init, next_=next_)
+    seen, vals = set(), []
+    for v in printed_tuples(res["out"], tag):
+        k = json.dumps(v)
+        if k not in seen:
+            seen.add(k)
+            vals.append(v)
+    m = re.search(r"(\d+) states checked, (\d+) traces generated", res["out"])
+    res["states"] = len(vals)
+    res["transitions"] = int(m.group(1)) if m else len(vals)
+    res["behaviours"] = int(m.group(2)) if m else 0
+    res["out"] = res["out"][-2000:]
+    return res, vals
+
+
 _VAR = re.compile(r"^(?:/\\ )?(\w+) = ", re.M)
 
 
@@ -176,12 +196,13 @@ def py_to_tla(v):
 def printed_tuples(out, tag):
     """Values printed by PrintT(<<tag, ...>>) in TLC output (bracket matching; one per print)."""
     res = []
-    key = '<<"%s"' % tag
+    key = re.compile(r'<<\s*"%s"' % re.escape(tag))
     i = 0
     while True:
-        i = out.find(key, i)
-        if i < 0:
+        m = key.search(out, i)
+        if not m:
             break
+        i = m.start()
         depth = 0
         j = i
         while j < len(out):
